@@ -21,15 +21,29 @@
    The visitor of Range and the evicted callback run outside every lock:
    PG_Unlock emits the XVisit labels in the step that releases the bucket, and
    at cache level C06_hist / C02 place EFire after the map call has returned.
-   Not proved: that under a fair schedule every single call finishes (a writer
-   can in principle be overtaken by resize after resize); the dynamic part of
-   the check runs the implementation under step budgets for that.
+   The dynamic part of the check runs the implementation under step budgets.
    Map variant (map.go, XMachineS): props/C03.v -- C03_resize_protocol (resizeMu / resizing
    flag / wait set, no lost wake-up, also for calls made from a Range visitor) and
    C03_bucket_locks (the spin lock in the top-hash word is held exactly by the thread whose
-   program counter says so; mutual exclusion; a returned thread holds none). *)
+   program counter says so; mutual exclusion; a returned thread holds none).
+   Termination (proofs/X_term.v): the theorems above exclude deadlock and lost wake-ups but do not
+   say that a call ever returns.  C13_solo_completion: in a reachable state that is calm for t (no
+   other thread holds a bucket lock, resizeMu or the resizer role, nobody waits), an idle thread
+   with a next call, run alone, finishes that call within an explicit bound tbound (a function of
+   the state: table length, stripes, entries), also when the call has to grow / shrink / clear the
+   table itself, copy it and retry.  C13_can_always_finish: from EVERY reachable state there is a
+   finite continuation after which every thread that ever ran is idle with an empty todo list -- no
+   reachable state is doomed.  Both need ghyp: grow_needed len sum = true -> len < sum.  Without it
+   the MODEL (whose resize policy is a parameter) has a solo writer that grows forever
+   (C13_growth_hypothesis_needed: grow_needed := fun _ _ => true; deadlock freedom, no lost wake-up
+   and bounded critical sections all hold for that instance): a finding about the generality of the
+   model, not about the code, whose policy satisfies ghyp (C13_termination_instance).
+   Still not a theorem: that every FAIR infinite schedule finishes every call (fairness over
+   infinite schedules is not formalised).
+*)
 From CacheV Require Import Base SpecMap XMachine TabExec Exec XExec.
 From CacheV.proofs Require Import X_basic X_inv X_c13 X_inst.
+From CacheV.proofs Require X_term.
 From Coq Require Import NArith.
 
 
@@ -111,3 +125,43 @@ Proof.
   split; [intros h len H; apply Nat.mod_upper_bound; lia | split; [intros; lia | lia]].
 Qed.
 Print Assumptions C13_nonvacuous.
+
+(* ---------------- termination ---------------- *)
+
+Theorem C13_solo_completion :
+  forall (K V : Type) (eqd : forall a b : K, {a = b} + {a <> b}) hash idx tag nslots seeds g sh probe nstripes minlen grow_only,
+    xhyps idx nstripes minlen -> X_term.ghyp g -> forall len0 todo sched t o rest, 0 < len0 ->
+    let xr := @xrun K V eqd hash idx tag nslots seeds g sh probe nstripes minlen grow_only in
+    let s := fst (xr (xinit nslots seeds nstripes len0 todo) sched) in
+    X_term.calm hash idx nslots nstripes s t -> g_pc s t = PIdle -> g_todo s t = o :: rest ->
+    exists m, m <= X_term.tbound hash idx tag nslots probe nstripes s t /\
+      let r := xr s (repeat t m) in
+      g_pc (fst r) t = PIdle /\ g_todo (fst r) t = rest
+      /\ In (XMachine.XInv t o) (snd r) /\ (exists res, In (XRes t res) (snd r))
+      /\ X_term.calm hash idx nslots nstripes (fst r) t
+      /\ (forall u, u <> t -> g_pc (fst r) u = g_pc s u /\ g_todo (fst r) u = g_todo s u).
+Proof. exact @X_term.solo_call_proof. Qed.
+Print Assumptions C13_solo_completion.
+
+Theorem C13_can_always_finish :
+  forall (K V : Type) (eqd : forall a b : K, {a = b} + {a <> b}) hash idx tag nslots seeds g sh probe nstripes minlen grow_only,
+    xhyps idx nstripes minlen -> X_term.ghyp g -> forall len0 todo sched ths, 0 < len0 ->
+    (forall u, In u sched -> In u ths) ->
+    let xr := @xrun K V eqd hash idx tag nslots seeds g sh probe nstripes minlen grow_only in
+    let s := fst (xr (xinit nslots seeds nstripes len0 todo) sched) in
+    exists cont, let r := xr s cont in
+      (forall t, In t ths -> g_pc (fst r) t = PIdle /\ g_todo (fst r) t = [])
+      /\ (forall u, ~ In u ths -> g_pc (fst r) u = PStart /\ g_todo (fst r) u = g_todo s u).
+Proof. exact @X_term.can_always_finish. Qed.
+Print Assumptions C13_can_always_finish.
+
+Theorem C13_termination_instance : X_term.ghyp grow_needed_m.
+Proof. exact X_term.x_instance_ghyp. Qed.
+Print Assumptions C13_termination_instance.
+
+Definition C13_solo_nonvacuous := X_term.solo_nonvacuous.
+Definition C13_can_finish_nonvacuous := X_term.can_finish_nonvacuous.
+Definition C13_growth_hypothesis_needed := X_term.solo_writer_grows_forever.
+Print Assumptions C13_solo_nonvacuous.
+Print Assumptions C13_can_finish_nonvacuous.
+Print Assumptions C13_growth_hypothesis_needed.
